@@ -202,6 +202,27 @@ def gen_case(rng, tier):
         ops.append('N:%s:%s' % (nh[0], nh[1].hex() or '-'))
     if nh_bad:
         ops.append('N:X:-')
+    if rng.chance(1, 3):
+        # the bulk entry points: runs of announcements / withdrawals handed over in one call, and calls with no item at all
+        grouped = []
+        for op in ops:
+            k = op[0]
+            if k in 'AW' and op[1] == ':' and grouped and grouped[-1][0] == k and rng.chance(3, 4):
+                grouped[-1][1].append(op[2:])
+            elif k in 'AW' and op[1] == ':':
+                grouped.append((k, [op[2:]]))
+            else:
+                grouped.append((None, op))
+        ops = []
+        for k, v in grouped:
+            if k is None:
+                ops.append(v)
+            elif len(v) == 1 and rng.chance(1, 2):
+                ops.append('%s:%s' % (k, v[0]))
+            else:
+                ops.append('%s:%s' % ('AI' if k == 'A' else rng.choice(['WI', 'WV']), ','.join(v)))
+        for _ in range(rng.choice([0, 1, 1, 2])):
+            ops.insert(rng.below(len(ops) + 1), rng.choice(['AI:-', 'WI:-', 'WV:-']))
     mode = rng.choice(['M', 'M', 'M', 'I', 'S', 'K'])
     return {'fam': fam, 'ap': ap, 'cfg': cfg, 'mode': mode, 'ops': ops, 'ann': ann, 'wd': wd, 'attrs': attrs, 'nh': nh,
             'nh_bad': nh_bad, 'shape': shape}
